@@ -29,12 +29,16 @@
       file, about which `Lawful` says nothing.  For `Codec.none` the third follows from `file.length < 2^62`
       (`src_C01_full_roundtrip_none`).
 
-  Partial correctness on the read side, as in ReaderE2EGen.lean: opening is shown to return; for the cursor calls the
+  `src_C01_full_roundtrip_total` (below) is the unconditional form: with `SrcTie.ReaderTotal` (every history of
+  regenerated cursor calls on a written file returns `.ok`) the read side no longer says "if the call returns".
+  The first theorems keep the earlier shape.
+  Partial correctness on the read side of `src_C01_full_roundtrip`, as in ReaderE2EGen.lean: opening is shown to return; for the cursor calls the
   statement is "if the call returns `.ok`, the result is the specified one" (that they do return is shown by kernel
   evaluation on a concrete written file, ReaderE2ESmoke.lean).
 -/
 import Grenad.SrcTie.WriterBuild
 import Grenad.SrcTie.ReaderE2EGen
+import Grenad.SrcTie.ReaderTotal
 
 set_option linter.unusedSimpArgs false
 set_option linter.unusedVariables false
@@ -170,6 +174,118 @@ theorem src_C01_full_roundtrip_none (wb : Gen.WriterBuilder) (es : List Entry)
   refine ⟨file, log, hgen, hrun, fun hfile hblocks => ?_⟩
   exact hread (by omega) hblocks (smallBlocks_none file hfile)
 
+/-! ### total correctness: the read side without "if it returns" -/
+
+/-- **The regenerated reader reads `es` back from `file`, unconditionally.**  As `frt_ReadsBack`, but every call is
+    stated to RETURN `.ok` (no panic, no `Err`): `Reader::new` / `into_cursor` return; `move_on_next()` × `(n+1)`
+    returns exactly the entries in order, then `None` (`move_on_prev()`: reversed); EVERY history of public calls
+    returns, with as many results as calls, each agreeing with the specification cursor over `es`; and after every
+    history the three seeks return the ceiling, the floor, the entry with key `q`. -/
+def frt_ReadsBackTotal (cd : Codec) (es : List Entry) (levels : Nat) (file : Bytes) : Prop :=
+  ∀ pos : Nat, ∃ (rdr : Gen.Reader) (s0 : Gen.ReaderCursor),
+    Gen.Reader.new { bytes := file, pos := pos } = .ok rdr ∧ Gen.Reader.into_cursor rdr = .ok s0 ∧
+    rdr.metadata.entries_count = es.length ∧ rdr.metadata.index_levels = levels ∧
+    rdr.metadata.compression_type.toNat = cd.id ∧ rdr.metadata.file_version = .formatV2 ∧
+    (∃ s', genRcRun cd s0 (List.replicate (es.length + 1) .next) = .ok (es.map some ++ [none], s')) ∧
+    (∃ s', genRcRun cd s0 (List.replicate (es.length + 1) .prev) = .ok (es.reverse.map some ++ [none], s')) ∧
+    (∀ hist : List Op, ∃ rs s1, genRcRun cd s0 hist = .ok (rs, s1) ∧
+      rs.length = hist.length ∧
+      (∀ x ∈ (rs.map Res.ok).zip (e2eSpecRun es .fresh hist), Spec.Agree x.1 x.2) ∧
+      ∀ q : Bytes,
+        (∃ s2, Gen.ReaderCursor.move_on_key_greater_than_or_equal_to (fun _ => cd.decompress) s1 q =
+          .ok (Spec.ceiling es q, s2)) ∧
+        (∃ s2, Gen.ReaderCursor.move_on_key_lower_than_or_equal_to (fun _ => cd.decompress) s1 q =
+          .ok (Spec.floor es q, s2)) ∧
+        (∃ s2, Gen.ReaderCursor.move_on_key_equal_to (fun _ => cd.decompress) s1 q =
+          .ok (Spec.lookup es q, s2)))
+
+/-- one more call after a history that returned `(rs, s1)`: it returns, from `s1` -/
+theorem frt_step_after {cd : Codec} {cfg : WCfg} {es : List Entry} {file : Bytes} {log : List Emitted} {m : Meta.Meta}
+    (S : Setting cd cfg es file log) (hm : Meta.parse file = .ok m) (hs : SmallBlocks cd file)
+    (s0 : Gen.ReaderCursor) (hg : GoodRC (fun _ => True) file s0) (h0 : toRCfull s0 [] = RC.new m)
+    (hist : List Op) (rs : List (Option (Bytes × Bytes))) (s1 : Gen.ReaderCursor)
+    (h : genRcRun cd s0 hist = .ok (rs, s1)) (op : Op) :
+    ∃ r s2, genRcStep cd s1 op = .ok (r, s2) := by
+  obtain ⟨rs', s1', r, s2, h', h2, -⟩ := src_C03_step_total S hm hs s0 hg h0 hist op
+  rw [h] at h'
+  simp only [Except.ok.injEq, Prod.mk.injEq] at h'
+  obtain ⟨-, rfl⟩ := h'
+  exact ⟨r, s2, h2⟩
+
+/-- The read side, collected, unconditional form. -/
+theorem frt_reads_total_of_setting {cd : Codec} {cfg : WCfg} {es : List Entry} {file : Bytes} {log : List Emitted}
+    (S : Setting cd cfg es file log) (hs : SmallBlocks cd file) : frt_ReadsBackTotal cd es cfg.levels file := by
+  intro pos
+  obtain ⟨rdr, s0, hopen, hcur, h1, h2, h3, h4⟩ := e2e_open_ok S pos
+  obtain ⟨hparse, -⟩ := e2e_reader_new file pos rdr hopen
+  obtain ⟨hg, h0, -⟩ := e2e_open_cursor file pos _ hparse (e2e_setting_levels_le S hparse) rdr s0 hopen hcur
+  refine ⟨rdr, s0, hopen, hcur, h1, h2, h3, h4, ?_, ?_, ?_⟩
+  · obtain ⟨rs, s', h⟩ := src_reader_total S hparse hs s0 hg h0 (List.replicate (es.length + 1) .next)
+    have := src_C01_scan_next S hparse hs s0 hg h0 rs s' h
+    subst this
+    exact ⟨s', h⟩
+  · obtain ⟨rs, s', h⟩ := src_reader_total S hparse hs s0 hg h0 (List.replicate (es.length + 1) .prev)
+    have := src_C01_scan_prev S hparse hs s0 hg h0 rs s' h
+    subst this
+    exact ⟨s', h⟩
+  · intro hist
+    obtain ⟨rs, s1, h, hlen, hag⟩ := src_C03_history_total S hparse hs s0 hg h0 hist
+    refine ⟨rs, s1, h, hlen, hag, fun q => ⟨?_, ?_, ?_⟩⟩
+    · obtain ⟨r, s2, h2⟩ := frt_step_after S hparse hs s0 hg h0 hist rs s1 h (.ge q)
+      have hr := src_C02_ge_after S hparse hs s0 hg h0 hist rs s1 h q r s2 h2
+      subst hr
+      exact ⟨s2, h2⟩
+    · obtain ⟨r, s2, h2⟩ := frt_step_after S hparse hs s0 hg h0 hist rs s1 h (.le q)
+      have hr := src_C02_le_after S hparse hs s0 hg h0 hist rs s1 h q r s2 h2
+      subst hr
+      exact ⟨s2, h2⟩
+    · obtain ⟨r, s2, h2⟩ := frt_step_after S hparse hs s0 hg h0 hist rs s1 h (.eq q)
+      have hr := src_C02_eq_after S hparse hs s0 hg h0 hist rs s1 h q r s2 h2
+      subst hr
+      exact ⟨s2, h2⟩
+
+/-- **C01/C02/C03, regenerated writer + regenerated reader, end to end, total correctness on both sides.**
+    Same hypotheses as `src_C01_full_roundtrip`; the bytes the regenerated writer returns are opened by the
+    regenerated `Reader::new` / `into_cursor`, and every call on the regenerated `ReaderCursor` RETURNS the specified
+    result (`frt_ReadsBackTotal`). -/
+theorem src_C01_full_roundtrip_total (cd : Codec) (wb : Gen.WriterBuilder) (es : List Entry)
+    (hlaw : cd.Lawful) (hid : cd.id ≤ 5) (hlv : wb.index_levels ≤ 255)
+    (hiv : ∀ iv, wb.index_key_interval = some iv → 1 ≤ iv ∧ iv < 2 ^ 64)
+    (hasc : StrictAsc es) (hlens : ∀ e ∈ es, e.1.length < 2 ^ 32 ∧ e.2.length < 2 ^ 32)
+    (hcount : es.length < 2 ^ 26)
+    (hcd : ∀ b : Bytes, b.length < 2 ^ 63 → (cd.compress b).length < 2 ^ 64)
+    (hct : wb.compression_type.toNat = cd.id) :
+    ∃ file log,
+      (do let (w, _) ← Gen.WriterBuilder.build wb []
+          genWriterRun (codecFn cd) w es : M Sink) = .ok file ∧
+      W.run cd (cfgOf wb) es = .ok (file, log) ∧
+      (file.length < 2 ^ 64 → (∀ e ∈ log, e.raw.length < 2 ^ 32) → SmallBlocks cd file →
+        frt_ReadsBackTotal cd es wb.index_levels file) := by
+  obtain ⟨file, log, hgen, hrun, -⟩ :=
+    src_C01_builder_roundtrip cd wb es hlaw hid hlv hiv hasc hlens hcount hcd hct
+  refine ⟨file, log, hgen, hrun, fun hfile hblocks hs => ?_⟩
+  exact frt_reads_total_of_setting
+    (frt_setting cd wb es file log hlaw hid hlv hiv hasc hlens hcount hrun hfile hblocks) hs
+
+/-- **The same without compression.** -/
+theorem src_C01_full_roundtrip_total_none (wb : Gen.WriterBuilder) (es : List Entry)
+    (hlv : wb.index_levels ≤ 255)
+    (hiv : ∀ iv, wb.index_key_interval = some iv → 1 ≤ iv ∧ iv < 2 ^ 64)
+    (hasc : StrictAsc es) (hlens : ∀ e ∈ es, e.1.length < 2 ^ 32 ∧ e.2.length < 2 ^ 32)
+    (hcount : es.length < 2 ^ 26)
+    (hct : wb.compression_type = .none) :
+    ∃ file log,
+      (do let (w, _) ← Gen.WriterBuilder.build wb []
+          genWriterRun (codecFn Codec.none) w es : M Sink) = .ok file ∧
+      W.run Codec.none (cfgOf wb) es = .ok (file, log) ∧
+      (file.length < 2 ^ 62 → (∀ e ∈ log, e.raw.length < 2 ^ 32) →
+        frt_ReadsBackTotal Codec.none es wb.index_levels file) := by
+  obtain ⟨file, log, hgen, hrun, hread⟩ :=
+    src_C01_full_roundtrip_total Codec.none wb es frt_none_lawful (by decide) hlv hiv hasc hlens hcount
+      frt_none_bounded (by rw [hct]; rfl)
+  refine ⟨file, log, hgen, hrun, fun hfile hblocks => ?_⟩
+  exact hread (by omega) hblocks (smallBlocks_none file hfile)
+
 /-! ### the hypotheses are jointly satisfiable (and the conclusion is not empty) -/
 
 namespace FrtSmoke
@@ -225,6 +341,21 @@ theorem full_roundtrip_instance :
   simp only [sizesOK, h2, Bool.and_eq_true, decide_eq_true_eq, List.all_eq_true] at hs
   exact ⟨file, h1, h3 hs.1.1 hs.1.2⟩
 
+/-- **The total theorem applied** to the same instance: the regenerated writer returns `file`, the regenerated
+    reader opens it, and every call on the regenerated cursor returns the specified result. -/
+theorem full_roundtrip_total_instance :
+    ∃ file,
+      (do let (w, _) ← Gen.WriterBuilder.build wbS []
+          genWriterRun (codecFn Codec.none) w exEs : M Sink) = .ok file ∧
+      frt_ReadsBackTotal Codec.none exEs 2 file := by
+  obtain ⟨file, log, h1, h2, h3⟩ :=
+    src_C01_full_roundtrip_total_none wbS exEs (by decide)
+      (by intro iv h; simp only [wbS, Option.some.injEq] at h; subst h; decide)
+      exEs_asc exEs_lens (by decide) rfl
+  have hs := sizesOK_true
+  simp only [sizesOK, h2, Bool.and_eq_true, decide_eq_true_eq, List.all_eq_true] at hs
+  exact ⟨file, h1, h3 hs.1.1 hs.1.2⟩
+
 /-- the former codec hypothesis was false already for `Codec.none` -/
 example : ¬ ∀ b : Bytes, (Codec.none.compress b).length < 2 ^ 64 := by
   intro h
@@ -247,4 +378,8 @@ open Grenad.SrcTie
 #print axioms src_C01_full_roundtrip_none
 #print axioms FrtSmoke.builder_hyps_sat
 #print axioms FrtSmoke.full_roundtrip_instance
+#print axioms frt_reads_total_of_setting
+#print axioms src_C01_full_roundtrip_total
+#print axioms src_C01_full_roundtrip_total_none
+#print axioms FrtSmoke.full_roundtrip_total_instance
 end Audit
